@@ -45,6 +45,8 @@ fn main() {
     let r = match id {
         "C01" => go(props::c01::C01, tier, seed, &replay),
         "C03" => go(props::c03::C03, tier, seed, &replay),
+        "C04" => go(props::c04::C04, tier, seed, &replay),
+        "C05" => go(props::c05::C05, tier, seed, &replay),
         "C07" => go(props::c07::C07, tier, seed, &replay),
         "C12" => go(props::c12::C12, tier, seed, &replay),
         "C13" => go(props::c13::C13, tier, seed, &replay),
